@@ -66,6 +66,12 @@ pub fn sf(x: Float) -> String {
         if neg { format!("(P (-{}))", body) } else { format!("(P {})", body) }
     }
 }
+/// `"f32":true,` at the head of the JSON object of a case produced by the f32 build (the bit patterns are then 32-bit ones)
+pub fn f32_mark() -> &'static str { if cfg!(feature = "float") { "\"f32\":true," } else { "" } }
+/// Float::EPSILON / f64::EPSILON: 1 in the f64 build (constants multiplied by it are unchanged there), 2^29 in the f32 build;
+/// scales the generators' "a few ulps / 1e-k relative" offsets to the working precision
+#[allow(dead_code)]
+pub const FSCALE: f64 = (Float::EPSILON as f64) / f64::EPSILON;
 /// JSON: the bit pattern as an integer (exact; the Python side rebuilds the float)
 pub fn jf(x: Float) -> String {
     format!("{}", x.to_bits())
@@ -98,6 +104,15 @@ pub struct Sink {
 impl Sink {
     pub fn new(dir: &str, module: &str, shard: usize) -> Self {
         Sink { dir: dir.to_string(), module: module.to_string(), runner: module.to_string(), shard, coq: vec![], json: vec![] }
+    }
+    /// as `new`; in the f32 build (`--features float`) the cases go to the runner module `<module>f32` of the same file
+    /// Run/<module>.v: the same runner text instantiated on the binary32 number instance (NumF32fast, Run/FastNum32.v)
+    pub fn new32(dir: &str, module: &str, shard: usize) -> Self {
+        #[allow(unused_mut)]
+        let mut s = Sink::new(dir, module, shard);
+        #[cfg(feature = "float")]
+        { s.runner = format!("{}f32", module); }
+        s
     }
     pub fn push(&mut self, coq: String, json: String) {
         self.coq.push(coq);
